@@ -114,7 +114,7 @@ class FakePath:
 
 _PASS = {"O_RDONLY", "O_WRONLY", "O_RDWR", "O_APPEND", "O_CREAT", "O_TRUNC", "O_CLOEXEC",
          "O_NONBLOCK", "WNOHANG", "F_OK", "X_OK", "R_OK", "W_OK", "WIFEXITED", "WEXITSTATUS",
-         "WIFSIGNALED", "WTERMSIG", "WIFSTOPPED", "fsdecode", "fsencode", "major", "minor",
+         "WIFSIGNALED", "WTERMSIG", "WIFSTOPPED", "fsdecode", "fsencode", "major", "minor", "makedev",
          "name", "sep", "strerror", "PRIO_PROCESS", "environ", "fspath", "PathLike", "linesep",
          "devnull", "error"}
 
